@@ -1,4 +1,7 @@
 // C19 (sequential part) - coroutine storage policies: every frame gets exclusive, sufficiently large, correctly freed memory.
+// VERIF_FLAGS: -fno-sanitize=alignment
+// (promise_extra_storage puts the extra object right behind the frame without regard to its alignment; C19 does not speak
+// about alignment, and the over-aligned extra type below would otherwise stop every run at that point)
 // Per policy: every history over {create coroutine of frame-size class S/M/L, finish live coroutine i} within the
 // policy's documented discipline. A spy derived from the policy records alloc(sz)->ptr / dealloc(ptr,sz).
 #include <cocls/future.h>
@@ -67,14 +70,45 @@ struct Spy : P {
 };
 
 static int g_extra_ctor, g_extra_dtor;
+// live-address registry: an extra object must be destroyed at the address where it was constructed
+static void *g_extra_live[16];
+static int g_extra_wrong_dtor;
+static void extra_born(void *p) {
+    for (auto &x : g_extra_live)
+        if (!x) {
+            x = p;
+            return;
+        }
+}
+static void extra_died(void *p) {
+    for (auto &x : g_extra_live)
+        if (x == p) {
+            x = nullptr;
+            return;
+        }
+    g_extra_wrong_dtor++;
+}
 struct Extra {
     // pointer-sized: policies that keep a trailer behind the frame store a pointer at frame+size, and an extra object
     // whose size is not a multiple of the pointer size would make that store misaligned (alignment is not part of C19)
     long value;
-    Extra() : value(77) { g_extra_ctor++; }
-    Extra(const Extra &o) : value(o.value) { g_extra_ctor++; }
-    Extra(Extra &&o) noexcept : value(o.value) { g_extra_ctor++; }
-    ~Extra() { g_extra_dtor++; }
+    Extra() : value(77) { g_extra_ctor++; extra_born(this); }
+    Extra(const Extra &o) : value(o.value) { g_extra_ctor++; extra_born(this); }
+    Extra(Extra &&o) noexcept : value(o.value) { g_extra_ctor++; extra_born(this); }
+    ~Extra() { g_extra_dtor++; extra_died(this); }
+};
+
+// over-aligned extra object (alignof 16, like long double or __int128 members would give)
+struct alignas(16) Extra16 {
+    long value;
+    long pad = 0;
+    Extra16() : value(77) { g_extra_ctor++; extra_born(this); }
+    Extra16(const Extra16 &o) : value(o.value) { g_extra_ctor++; extra_born(this); }
+    Extra16(Extra16 &&o) noexcept : value(o.value) { g_extra_ctor++; extra_born(this); }
+    ~Extra16() { g_extra_dtor++; extra_died(this); }
+};
+struct Pod24 {
+    char bytes[24];
 };
 
 struct Slot {
@@ -114,9 +148,9 @@ static void start_coro(St &st, Slot *slot, int cls, int tag) {
         frame_coro<St, 1000>(st, slot, tag).detach();
 }
 
-enum Policy { P_DEFAULT = 0, P_REUSABLE, P_MTSAFE, P_STACK, P_PLACEMENT, P_BUFFER, P_EXTRA_DEFAULT, P_EXTRA_REUSABLE, P_EXTRA_MTSAFE, NPOL };
-static const char *pol_names[] = {"default", "reusable", "reusable_mtsafe", "stack_storage", "placement_alloc", "reusable_buffer", "extra+default", "extra+reusable", "extra+reusable_mtsafe"};
-static bool single_frame(int p) { return p == P_REUSABLE || p == P_PLACEMENT || p == P_BUFFER || p == P_EXTRA_REUSABLE; }
+enum Policy { P_DEFAULT = 0, P_REUSABLE, P_MTSAFE, P_STACK, P_PLACEMENT, P_BUFFER, P_EXTRA_DEFAULT, P_EXTRA_REUSABLE, P_EXTRA_MTSAFE, P_BUFFER24, P_EXTRA16_DEFAULT, P_EXTRA16_REUSABLE, NPOL };
+static const char *pol_names[] = {"default", "reusable", "reusable_mtsafe", "stack_storage", "placement_alloc", "reusable_buffer", "extra+default", "extra+reusable", "extra+reusable_mtsafe", "reusable_buffer<24-byte items>", "extra(alignas16)+default", "extra(alignas16)+reusable"};
+static bool single_frame(int p) { return p == P_REUSABLE || p == P_PLACEMENT || p == P_BUFFER || p == P_EXTRA_REUSABLE || p == P_BUFFER24 || p == P_EXTRA16_REUSABLE; }
 
 enum { CREATE_S = 0, CREATE_M, CREATE_L, FINISH0, FINISH1, FINISH2, NOPS };
 static const char *op_names[] = {"create(S)", "create(M)", "create(L)", "finish(0)", "finish(1)", "finish(2)"};
@@ -171,6 +205,19 @@ struct HBuffer {
     Spy<cocls::reusable_buffer_storage<std::vector<char>>> st{buf};
     auto &next() { return st; }
 };
+struct HBuffer24 {
+    std::vector<Pod24> buf;  // item size does not divide the frame sizes
+    Spy<cocls::reusable_buffer_storage<std::vector<Pod24>>> st{buf};
+    auto &next() { return st; }
+};
+struct HExtra16Default {
+    Spy<cocls::promise_extra_storage<Extra16, cocls::default_storage>> st{[] { return Extra16(); }};
+    auto &next() { return st; }
+};
+struct HExtra16Reusable {
+    Spy<cocls::promise_extra_storage<Extra16, cocls::reusable_storage>> st{[] { return Extra16(); }};
+    auto &next() { return st; }
+};
 struct HExtraDefault {
     Spy<cocls::promise_extra_storage<Extra, cocls::default_storage>> st{[] { return Extra(); }};
     auto &next() { return st; }
@@ -194,6 +241,8 @@ static void run_policy(seqx::Runner &R, int pol, const std::vector<int> &seq) {
     }
     g_spy_allocs = g_spy_deallocs = 0;
     g_extra_ctor = g_extra_dtor = 0;
+    g_extra_wrong_dtor = 0;
+    for (auto &x : g_extra_live) x = nullptr;
     std::vector<std::unique_ptr<Slot>> live;
     std::vector<std::unique_ptr<Slot>> all_done;
     live.reserve(16);
@@ -203,7 +252,7 @@ static void run_policy(seqx::Runner &R, int pol, const std::vector<int> &seq) {
         auto h = std::make_unique<H>();
         bool seen_cls[3] = {false, false, false};
         int max_cls_seen = -1;
-        bool is_extra = pol == P_EXTRA_DEFAULT || pol == P_EXTRA_REUSABLE || pol == P_EXTRA_MTSAFE;
+        bool is_extra = pol == P_EXTRA_DEFAULT || pol == P_EXTRA_REUSABLE || pol == P_EXTRA_MTSAFE || pol == P_EXTRA16_DEFAULT || pol == P_EXTRA16_REUSABLE;
         bool is_mtsafe = pol == P_MTSAFE || pol == P_EXTRA_MTSAFE;
         int tag = 1;
         for (size_t i = 0; i < seq.size() && !R.case_fail; i++) {
@@ -225,7 +274,7 @@ static void run_policy(seqx::Runner &R, int pol, const std::vector<int> &seq) {
                 uint64_t news = seqx::news() - news_before;
                 if (!s->started) R.fail("storage/coroutine-did-not-start", "coroutine did not run to its first suspension");
                 // warm-up rule for the reusing policies: an equally sized (or smaller) frame needs no further heap memory
-                bool reusing = pol == P_REUSABLE || pol == P_BUFFER || pol == P_EXTRA_REUSABLE || pol == P_PLACEMENT || (is_mtsafe && live.empty());
+                bool reusing = pol == P_REUSABLE || pol == P_BUFFER || pol == P_BUFFER24 || pol == P_EXTRA_REUSABLE || pol == P_EXTRA16_REUSABLE || pol == P_PLACEMENT || (is_mtsafe && live.empty());
                 if (reusing && cls <= max_cls_seen && news != 0)
                     R.fail("storage/allocation-after-warm-up", "%s: creating a frame of class %d after warm-up with class %d performed %lu heap allocations", pol_names[pol], cls,
                            max_cls_seen, (unsigned long)news);
@@ -269,6 +318,13 @@ static void run_policy(seqx::Runner &R, int pol, const std::vector<int> &seq) {
         if (!R.case_fail) {
             if (g_spy_allocs != g_spy_deallocs) R.fail("storage/dealloc-count", "%d frames allocated but %d deallocated", g_spy_allocs, g_spy_deallocs);
             if (is_extra && g_extra_ctor != g_extra_dtor) R.fail("storage/extra-lifetime", "extra objects: %d constructed, %d destroyed", g_extra_ctor, g_extra_dtor);
+            if (is_extra && g_extra_wrong_dtor) R.fail("storage/extra-destroyed-elsewhere", "%d extra objects were destroyed at an address where none had been constructed", g_extra_wrong_dtor);
+            if (is_extra)
+                for (void *x : g_extra_live)
+                    if (x) {
+                        R.fail("storage/extra-lifetime", "an extra object constructed at %p was never destroyed", x);
+                        break;
+                    }
         }
         {
             seqx::NoCount nc;
@@ -297,6 +353,9 @@ static void run_case(seqx::Runner &R, int pol, const std::vector<int> &seq) {
         case P_EXTRA_DEFAULT: run_policy<HExtraDefault>(R, pol, seq); break;
         case P_EXTRA_REUSABLE: run_policy<HExtraReusable>(R, pol, seq); break;
         case P_EXTRA_MTSAFE: run_policy<HExtraMtsafe>(R, pol, seq); break;
+        case P_BUFFER24: run_policy<HBuffer24>(R, pol, seq); break;
+        case P_EXTRA16_DEFAULT: run_policy<HExtra16Default>(R, pol, seq); break;
+        case P_EXTRA16_REUSABLE: run_policy<HExtra16Reusable>(R, pol, seq); break;
     }
 }
 
